@@ -170,4 +170,194 @@ theorem ptrLoop_strong (s : State) (maxOps : Nat) : ∀ (es : List Nat) (total :
       obtain ⟨i1, i2⟩ := ih (total + iters) c' (ps.set e p') hyp
       exact ⟨i1.trans hv, by intro e'; have := i2 e'; rw [hv] at this; exact this⟩
 
+/-! ### blocks -/
+
+theorem saveStreams_ptrs (ee : Bool) : ∀ (l : List Stream) (s s' : State), saveStreams ee l s = .ok s' → s'.ptrs = s.ptrs := by
+  intro l
+  induction l with
+  | nil => intro s s' h; simp only [saveStreams, Except.ok.injEq] at h; rw [← h]
+  | cons st rest ih =>
+    intro s s' h
+    unfold saveStreams at h
+    split at h
+    · cases he : saveStreamEnd st.atEpochEnd s with
+      | error e => simp [he] at h
+      | ok s1 =>
+        simp only [he] at h
+        have h1 : s1.ptrs = s.ptrs := by
+          unfold saveStreamEnd at he
+          split at he
+          · cases hd : Refs.del s.active st.atEpochEnd.start st.atEpochEnd.id with
+            | none => simp [hd] at he
+            | some a =>
+              simp only [hd] at he
+              cases ha : Refs.add s.finished st.atEpochEnd.start st.atEpochEnd.id with
+              | none => simp [ha] at he
+              | some f =>
+                simp only [ha, Except.ok.injEq] at he
+                rw [← he]; rfl
+          · simp only [Except.ok.injEq] at he
+            rw [← he]; rfl
+        rw [ih s1 s' h, h1]
+    · have := ih _ s' h
+      exact this
+
+theorem strDistribute_ptrs (s : State) (es : List Nat) (streams : List Stream) (maxOps : Nat) (ee : Bool) (s' : State)
+    (h : strDistribute s es streams maxOps ee = .ok s') :
+    s'.ptrs = (ptrLoop s maxOps (sortByDuration es) 0 ⟨sortById streams, [], []⟩ s.ptrs).2.2 := by
+  unfold strDistribute at h
+  generalize ptrLoop s maxOps (sortByDuration es) 0 ⟨sortById streams, [], []⟩ s.ptrs = res at h ⊢
+  obtain ⟨tot, c, ps⟩ := res
+  dsimp only at h ⊢
+  split at h
+  · simp at h
+  · next b hb =>
+    cases hinc : incDistribute { s with ptrs := ps, bank := b } c.gauges ee with
+    | error x => simp [hinc] at h
+    | ok s2 =>
+      simp only [hinc] at h
+      have hf := incDistribute_frame _ _ _ _ hinc
+      rw [saveStreams_ptrs ee _ _ _ h, hf]
+
+/-- **the streamer EndBlock keeps the pointer invariant** -/
+theorem endBlock_strong (s s' : State) (hi : Inv s) (hl : LiveS s) (hst : StrongS s) (h : streamerEndBlock s = .ok s') : StrongS s' := by
+  have hp := ptrsOKS_of_strong s hi hst
+  obtain ⟨_, _, _, hdata, _⟩ := endBlock_settled s s' hi hl hp h
+  have hi' := endBlock_inv s s' hi h
+  unfold streamerEndBlock at h
+  have hptrs := strDistribute_ptrs _ _ _ _ _ _ h
+  have L := ptrLoop_strong s s.maxIter (sortByDuration [0, 1, 2]) 0 ⟨sortById (activeStreams s), [], []⟩ s.ptrs
+    (fun e => strongP_of_strong s hi.struct e _ (hst e))
+  intro e
+  apply strong_of_strongP s' hi'.struct
+  rw [hdata, hptrs]
+  exact L.2 e
+
+theorem started_epoch (st : Stream) (d : List Rec) : (started (st.retarget d)).epochId = st.epochId := by
+  unfold started Stream.retarget
+  split <;> rfl
+
+/-- the epoch-end flush of epoch `e` resets pointer `e`, leaves the others, and removes streams of epoch `e` only -/
+theorem afterEpochEnd_strong (s : State) (e : Nat) (s' : State) (hi : Inv s) (hst : StrongS s)
+    (h : streamerAfterEpochEnd s e = .ok s') : StrongS s' := by
+  unfold streamerAfterEpochEnd at h
+  by_cases hemp : (activeStreamsFor s e).isEmpty = true
+  · rw [if_pos hemp] at h
+    simp only [Except.ok.injEq] at h; subst h; exact hst
+  rw [if_neg hemp] at h
+  cases hd : strDistribute s [e] (activeStreamsFor s e) maxU64 true with
+  | error x => simp [hd] at h
+  | ok s1 =>
+    simp only [hd, Except.ok.injEq] at h
+    have hin := activeStreamsFor_good s hi.struct e
+    have hst2 : ∀ st ∈ activeStreamsFor s e, StrictInc (st.recs.map (·.gauge)) ∧ st.id < maxU64 := by
+      intro st hm
+      have hmem : st ∈ s.streams := mem_of_getS (hin.2 st hm).1
+      exact ⟨hi.stat.recs st hmem, by have := id_le_length hi.struct.sid hmem; have := hi.len; omega⟩
+    obtain ⟨c, _, _, _, c4, c5, c6, _, _, c9, _⟩ := strDistribute_core s _ _ _ _ s1 hi.ginv hi.struct hin hst2 hd
+    rw [← h]
+    intro e'
+    show PtrStrong s1 e' ((s1.ptrs.set e Pointer.first).getD e' Pointer.last)
+    rcases getD_set_cases s1.ptrs e e' Pointer.first with ⟨h2, _⟩ | h1
+    · rw [h2]; exact Or.inl rfl
+    · rw [h1]
+      by_cases hee : e' = e
+      · -- the pointer of `e` itself was out of range: `getD` gives `last`
+        subst hee
+        by_cases hl : e' < s1.ptrs.length
+        · have : (s1.ptrs.set e' Pointer.first).getD e' Pointer.last = Pointer.first := by
+            simp [List.getD_eq_getElem?_getD, hl]
+          rw [← h1, this]; exact Or.inl rfl
+        · have : s1.ptrs.getD e' Pointer.last = Pointer.last := by
+            simp only [List.getD_eq_getElem?_getD]
+            rw [List.getElem?_eq_none (by omega)]; rfl
+          rw [this]; exact Or.inr (Or.inr rfl)
+      · rw [c4 e' (by simpa using hee)]
+        rcases hst e' with k | ⟨st, hg, ha, hep⟩ | k
+        · exact Or.inl k
+        · right; left
+          have hnot : (s.ptrs.getD e' Pointer.last).streamId ∉ (activeStreamsFor s e).map (·.id) := by
+            intro hx
+            obtain ⟨y, hy, hyid⟩ := List.mem_map.1 hx
+            have g1 := (hin.2 y hy).1
+            rw [hyid, hg] at g1
+            have : st = y := Option.some.inj g1
+            have hye := activeStreamsFor_epoch s e y hy
+            rw [← this, hep] at hye
+            exact hee hye
+          refine ⟨st, by rw [c5 _ hnot]; exact hg, ?_, hep⟩
+          apply (c9 _).2
+          refine ⟨ha, ?_⟩
+          intro v hv hvid
+          exact absurd (by rw [← hvid]; exact c6 v hv) hnot
+        · exact Or.inr (Or.inr k)
+
+theorem beforeEpochStart_strong (s : State) (e : Nat) (s' : State) (hs : SStruct s) (hst : StrongS s)
+    (h : streamerBeforeEpochStart s e = .ok s') : StrongS s' := by
+  unfold streamerBeforeEpochStart at h
+  cases ha : activateDue (upcomingStreams s) s with
+  | error x => simp [ha] at h
+  | ok s1 =>
+    simp only [ha] at h
+    obtain ⟨a1, a2, _, _, a5, _⟩ := activateDue_exact _ _ _ ha
+    obtain ⟨hs1, _, _, _⟩ := activateDue_spec _ _ _ hs ha
+    obtain ⟨gi1, gi2⟩ := activeStreamsFor_good s1 hs1 e
+    obtain ⟨b1, b2, _, b4, _, b5⟩ := startStreams_exact _ _ _ hs1 gi1 (fun st hst => (gi2 st hst).1) h
+    intro e'
+    rw [b1, a2]
+    rcases hst e' with k | ⟨st, hg, hact, hep⟩ | k
+    · exact Or.inl k
+    · right; left
+      have hact' : (s.ptrs.getD e' Pointer.last).streamId ∈ s'.active.ids := by rw [b2]; exact a5 _ hact
+      by_cases hx : (s.ptrs.getD e' Pointer.last).streamId ∈ (activeStreamsFor s1 e).map (·.id)
+      · obtain ⟨y, hy, hyid⟩ := List.mem_map.1 hx
+        have g1 := (gi2 y hy).1
+        rw [hyid, a1, hg] at g1
+        have : st = y := Option.some.inj g1
+        subst this
+        have := (b5 st hy).1
+        rw [hyid] at this
+        exact ⟨_, this, hact', by rw [started_epoch]; exact hep⟩
+      · exact ⟨st, by rw [b4 _ hx, a1]; exact hg, hact', hep⟩
+    · exact Or.inr (Or.inr k)
+
+/-- the invariant pair carried through hooks -/
+def J (s : State) : Prop := Inv s ∧ StrongS s
+
+theorem applyHook_J (f : State → Res) (s : State) (hj : J s) (hf : ∀ s', f s = .ok s' → J s') : J (applyHook f s) := by
+  unfold applyHook
+  cases h : f s with
+  | ok s' => exact hf s' h
+  | error e => exact hj
+
+theorem epochTick_J (s : State) (e : Nat) (hj : J s) : J (epochTick s e) := by
+  unfold epochTick
+  cases he : s.epochs[e]? with
+  | none => exact hj
+  | some ep =>
+    simp only
+    split
+    · exact hj
+    · split
+      · exact hj
+      · split
+        · have h1 : J { s with epochs := s.epochs.set e { ep with started := true, curStart := ep.startTime } } :=
+            ⟨Inv_frame hj.1 rfl rfl rfl rfl (Same.ginv (s := s) ⟨rfl, rfl, rfl, rfl⟩ hj.1.ginv), StrongS_frame hj.2 rfl rfl rfl⟩
+          exact applyHook_J _ _ h1 (fun s' h => ⟨streamerBeforeEpochStart_inv _ e s' h1.1 h, beforeEpochStart_strong _ e s' h1.1.struct h1.2 h⟩)
+        · have a1 := applyHook_J (fun x => streamerAfterEpochEnd x e) s hj
+            (fun s' h => ⟨streamerAfterEpochEnd_inv s e s' hj.1 h, afterEpochEnd_strong s e s' hj.1 hj.2 h⟩)
+          have a2 := applyHook_J (fun x => incAfterEpochEnd x e) _ a1 (fun s' h => by
+            obtain ⟨f1, f2, f3, _⟩ := incAfterEpochEnd_frame _ e s' h
+            exact ⟨incAfterEpochEnd_inv _ e s' a1.1 h, StrongS_frame a1.2 f1 f2 f3⟩)
+          generalize applyHook (fun x => incAfterEpochEnd x e) (applyHook (fun x => streamerAfterEpochEnd x e) s) = s2 at a2 ⊢
+          have h1 : J { s2 with epochs := s2.epochs.set e { ep with curStart := ep.curStart + ep.dur } } :=
+            ⟨Inv_frame a2.1 rfl rfl rfl rfl (Same.ginv (s := s2) ⟨rfl, rfl, rfl, rfl⟩ a2.1.ginv), StrongS_frame a2.2 rfl rfl rfl⟩
+          exact applyHook_J _ _ h1 (fun s' h => ⟨streamerBeforeEpochStart_inv _ e s' h1.1 h, beforeEpochStart_strong _ e s' h1.1.struct h1.2 h⟩)
+
+theorem beginBlock_strong (s : State) (dt : Nat) (hi : Inv s) (hst : StrongS s) : StrongS (beginBlock s dt) := by
+  unfold beginBlock
+  have h0 : J { s with now := s.now + dt } :=
+    ⟨Inv_frame hi rfl rfl rfl rfl (Same.ginv (s := s) ⟨rfl, rfl, rfl, rfl⟩ hi.ginv), StrongS_frame hst rfl rfl rfl⟩
+  exact (epochTick_J _ 2 (epochTick_J _ 1 (epochTick_J _ 0 h0))).2
+
 end DymVerif.Incent
